@@ -94,12 +94,12 @@ class _Base:
         self.bag.append(dict(self.bag[i]))
         self.log.append({"k": "dup", "m": m})
 
-    def deliver(self, m):
+    def deliver(self, m, kind="deliver"):
         i = self.find(m)
         if i is None:
             raise env.MachineryError(f"deliver: {m} not in flight")
         d = self.bag.pop(i)
-        self.log.append({"k": "deliver", "m": m})
+        self.log.append({"k": kind, "m": m})
         self._deliver(d["data"])
         self.collect()
 
@@ -225,6 +225,7 @@ class SyncRig(_Base):
         self.sock = GeckoUdpSocket()
         self.ms = MockSock(self.w2.clock)
         self.sock._socket = self.ms
+        self.sock.open()                   # (the engine thread is inert: W2.step runs its loop body)
         self.sock.add_receive_handler(GeckoPacketProtocolHandler(socket=self.sock))
         self.struct = GeckoStructure(None)
         self.struct.set_status_block(old_block)
@@ -253,7 +254,17 @@ class SyncRig(_Base):
 
     def _deliver(self, framed):
         self.ms.inbox.append((framed, SIM_ADDR))
-        self.iterate(2)
+        self.iterate(2 * len(self.ms.inbox) + 2)
+
+    def enqueue(self, m, kind="deliver"):
+        """the datagram reaches the socket's receive buffer, but the engine thread does not run yet: it
+        will find this one and the next one waiting back to back"""
+        i = self.find(m)
+        if i is None:
+            raise env.MachineryError(f"enqueue: {m} not in flight")
+        d = self.bag.pop(i)
+        self.log.append({"k": kind, "m": m})
+        self.ms.inbox.append((d["data"], SIM_ADDR))
 
     def timeout(self):
         self.w2.advance(self.T + 0.25)
